@@ -1,11 +1,26 @@
 """Source of truth for MANIFEST.json (run ./gen_manifest.py after editing)."""
 ENGINES = [
+    {"name": "progspace (E1)", "path": "vlib/progspace.py", "serves_properties": ["C01", "C02", "C06", "C08", "C20"], "kind_free_text": "grammar-complete enumeration of with/try/loop programs by AST size, rendered for 4 function kinds, decision-prefix DFS over all paths, step driver with shadow model"},
     {"name": "runner", "path": "vlib/runner.py", "serves_properties": [], "kind_free_text": "shards a bounded-exhaustive enumeration over worker processes of each present interpreter (3.9-3.12), merges counts, replays each violation in a fresh process, writes evidence"},
     {"name": "treespace/refmodel (C10)", "path": "vlib/props/c10.py", "serves_properties": ["C10"], "kind_free_text": "exhaustive item trees x hook tables, real extract() vs reference interpreter"},
 ]
 NOTES = "All checks are bounded-exhaustive explorations of the real implementation (no sampling); see DESIGN.md."
 NOT_APPLICABLE = {}
 CHECKS = {
+    "C01": {
+        "engine": "progspace (E1)",
+        "category": "exploration",
+        "technique": "bounded-exhaustive exploration of the implementation: all programs up to AST size S x all decision paths x every suspension point, shadow-model oracle, on every present interpreter",
+        "text": "Every function body within the size bound, as coroutine / generator / async generator, is compiled by each present interpreter (3.9-3.12) and driven along every branch/swallow decision path; at every suspension extract() and contexts_active_in_frame() must equal the program's own list of entered-not-exited managers (identity, order, is_async, is_exiting, line, varname) with no warning and no error. Exhaustive within the stated bounds; nothing sampled.",
+        "note": "Trusts the generated programs' shadow bookkeeping (vlib/progspace.py Rt/M/AM). Bounds: quick S<=4 core grammar, thorough S<=5 full grammar; <=2 statements per block; <=7 decisions per path.",
+    },
+    "C02": {
+        "engine": "progspace (E1)",
+        "category": "exploration",
+        "technique": "bounded-exhaustive exploration of the implementation: all programs up to AST size S with probe leaves x all decision paths x every probe point (body, nested call, inside every enter/exit before/after its await), shadow-model oracle",
+        "text": "Same program space as C01 plus probe leaves, as plain function / running generator / running coroutine / running async generator; every probe walks f_back to the target frame and compares extract_since(frame) and contexts_active_in_frame(frame, None, next_inner) with the shadow model: entering manager absent, exiting manager last with is_exiting and obj identical. Exhaustive within bounds on 3.9-3.12.",
+        "note": "Trusts the shadow bookkeeping; __exit__ are plain methods with a first positional parameter. Bounds: quick S<=3, thorough S<=4 (core) + S<=3 (full grammar).",
+    },
     "C10": {
         "engine": "treespace/refmodel (C10)",
         "category": "model_checking",
